@@ -605,6 +605,10 @@ class NetworkGraph(AbstractBaseIR):
             # immutable — the buffer would never accumulate).
             self._uses_edge_delay_buffer = True
 
+            # a delay of one step is the marker for "no delay" (see `_collect_delays_from_edges`): such edges read
+            # the value that has just been written to slot 0 of the buffer, not the one of the previous step
+            delays = [0 if d == 1 else d for d in delays]
+
             # create buffer variable shapes
             if len(target_shape) < 1 or (len(target_shape) == 1 and target_shape[0] == 1):
                 buffer_shape = (max_delay + 1,)
